@@ -126,16 +126,19 @@ def gen_lean():
             cunion = [("diff:" + diff_of[1] + ":" + dec[1] + ":" + dec[2]) if n == dec[0] else cfields[n] for n in names]
     if not cunion:
         raise ValueError("get_chain_starts: union of masks not found")
-    # both: the empty-array early return
+    # both: the empty-array early return, evaluated for add_exclusive_stop = False / True
+    import numpy as _np
     empties = []
     for tree, name in ((res, "get_residue_starts"), (cha, "get_chain_starts")):
         f = _func(tree, name)
         got = None
         for node in f.body:
             if isinstance(node, ast.If) and "array_length() == 0" in ast.unparse(node.test):
-                ret = node.body[0]
-                if isinstance(ret, ast.Return):
-                    got = ast.unparse(ret.value).replace('"', "'")
+                ret = node.body[-1]
+                if isinstance(ret, ast.Return) and len(node.body) == 1:
+                    code = compile(ast.Expression(ret.value), name, "eval")
+                    got = tuple([int(x) for x in eval(code, {"np": _np, f.args.args[1].arg: flag})]  # noqa: S307
+                                for flag in (False, True))
         if got is None:
             raise ValueError(f"{name}: empty-array early return not found")
         empties.append(got)
@@ -154,10 +157,17 @@ def gen_lean():
         if n_calls != 1:
             raise ValueError(f"{name}: expected exactly one `np.searchsorted(...) - k`")
         g = []
+        assigned = {n.targets[0].id: ast.unparse(n.value) for n in f.body
+                    if isinstance(n, ast.Assign) and isinstance(n.targets[0], ast.Name)}
         for node in f.body:
             if isinstance(node, ast.If) and any(isinstance(x, ast.Raise) for x in node.body):
                 exc = next(x for x in node.body if isinstance(x, ast.Raise)).exc
-                g.append((ast.unparse(node.test), exc.func.id if isinstance(exc, ast.Call) else ast.unparse(exc)))
+                cmp = next((x for x in ast.walk(node.test) if isinstance(x, ast.Compare)), None)
+                if cmp is None or len(cmp.ops) != 1:
+                    raise ValueError(f"{name}: unexpected guard {ast.unparse(node.test)}")
+                rhs = ast.unparse(cmp.comparators[0])
+                rhs = assigned.get(rhs, rhs)
+                g.append((type(cmp.ops[0]).__name__ + " " + rhs, exc.func.id if isinstance(exc, ast.Call) else ast.unparse(exc)))
         guards.append((name, g))
     body = [
         "/- REGENERATED on every run by harness/props/c17.py from structure/residues.py, chains.py, segments.py. Do not edit. -/",
@@ -166,8 +176,8 @@ def gen_lean():
         f"def residueFields : List String := {_lean_strs(union)}",
         "/-- operands of the mask union in `get_chain_starts` (`diff:<annotation>:<op>:<bound>` for the np.diff test). -/",
         f"def chainTerms : List String := {_lean_strs(cunion)}",
-        "/-- value returned for an empty array by get_residue_starts / get_chain_starts. -/",
-        f"def emptyReturns : List String := {_lean_strs(empties)}",
+        "/-- (without, with exclusive stop) returned for an empty array by get_residue_starts / get_chain_starts. -/",
+        "def emptyReturns : List (List Nat × List Nat) := [" + ", ".join(f"({list(a)}, {list(b)})" for a, b in empties) + "]",
         "/-- (function, side of np.searchsorted, subtracted constant). -/",
         "def searchSides : List (String × String × String) := ["
         + ", ".join(f'("{a}", "{b}", "{c}")' for a, b, c in sides) + "]",
